@@ -311,14 +311,45 @@ def _worklist_closure(ctx, R, rid):
     R.floor("work-list loops in get_all_hrefs_of_instances", 2)
 
 
-def _h_yield_guards(ctx, R, rid):
+def _closure_generators(mod):
+    """generator functions driven by a work list (`while S: x = S.pop()`): the cross-hierarchy closures"""
+    out = []
+    for fn, f in sorted(mod.functions.items()):
+        if not any(isinstance(y, ast.Yield) for y in walk_local(f.node)):
+            continue
+        for w in walk_local(f.node):
+            if isinstance(w, ast.While) and isinstance(w.test, ast.Name) and any(
+                    isinstance(c, ast.Call) and isinstance(c.func, ast.Attribute) and c.func.attr == "pop" and norm(c.func.value) == w.test.id
+                    for c in ast.walk(w)) and f.params and w.test.id not in f.params:
+                out.append(f)
+                break
+    return out
+
+
+def _h_yield_guards(ctx, R, rid, closures=False):
     """no occurrence is returned twice: the yield-guard rule of C13 (Q5) on the five hierarchical query modules"""
     from .query_rules import _yield_guard, _triple
     P = ctx.P
     n = 0
+    nc = 0
     for m in H_MODULES:
         mod = P.module(UTIL + m + ".py")
         name, pub, mid, raw = _triple(mod)
+        if closures:
+            for g in _closure_generators(mod):
+                if g is raw:
+                    continue
+                for y in walk_local(g.node):
+                    if not isinstance(y, ast.Yield):
+                        continue
+                    nc += 1
+                    idiom, desc = _yield_guard(g, y)
+                    if idiom == "G1":
+                        R.ok(rid, "%s: yield %s [%s]" % (g.qualname, norm(y.value), desc), g.loc(y))
+                    else:
+                        R.bad(rid, "%s|closure yield %s" % (g.key, norm(y.value)), g.loc(y),
+                              "%s: `yield %s` is not guarded by a not-in / add test on the value it yields (%s): the visited set no longer identifies "
+                              "what was reported, so members of the net are dropped or repeated" % (g.qualname, norm(y.value), desc))
         guards = {}
         roles = {}
         for y in walk_local(raw.node):
@@ -338,6 +369,15 @@ def _h_yield_guards(ctx, R, rid):
                       "%s: `yield %s` (under `%s`) %s: the same hierarchical reference can be returned twice" % (raw.qualname, norm(y.value), " / ".join(ctxs), desc))
     R.count("yields in hierarchical raw generators", n)
     R.floor("yields in hierarchical raw generators", 35)
+    from .query_rules import check_stages
+    st = 0
+    for m in H_MODULES:
+        st += check_stages(R, rid, _triple(P.module(UTIL + m + ".py"))[3])
+    R.count("two-stage hierarchical generators", st)
+    R.floor("two-stage hierarchical generators", 5)
+    if closures:
+        R.count("yields in work-list closure generators", nc)
+        R.floor("yields in work-list closure generators", 4)
 
 
 def _validity_polarity(test, v):
@@ -774,7 +814,7 @@ def check_c12(ctx, R):
     R.rule("H7b'", "the occurrence enumeration the traces start from is closed under discovery")
     _worklist_closure(ctx, R, "H7b'")
     R.rule("H11'", "each hierarchical pin / wire of a trace is reported once, de-duplicated on the value yielded")
-    _h_yield_guards(ctx, R, "H11'")
+    _h_yield_guards(ctx, R, "H11'", closures=True)
     # H9
     R.rule("H9", "closure filters compare whole references, not bare items")
     n9 = 0
